@@ -5,6 +5,18 @@ B = "dns/btreezone.py"
 
 CANARIES = [
     {
+        "id": "C10-commit-failure-not-rolled-back",
+        "prop": "C10",
+        "what": "a failing commit (immutable version cannot be built) leaves the write transaction slot occupied",
+        "edits": [{"file": Z, "old": "                self.zone._end_write(self)  # pyright: ignore\n                raise\n", "new": "                raise\n"}],
+    },
+    {
+        "id": "C10-exit-commits-on-base-exception",
+        "prop": "C10",
+        "what": "__exit__ rolls back only for Exception subclasses",
+        "edits": [{"file": T, "old": "            if exc_type is None:\n                self.commit()\n            else:\n                self.rollback()", "new": "            if exc_type is None or not issubclass(exc_type, Exception):\n                self.commit()\n            else:\n                self.rollback()"}],
+    },
+    {
         "id": "C10-delete-node-no-changed",
         "prop": "C10",
         "what": "delete_node forgets to record the name in the changed set (a txn that only deletes names is not committed)",
